@@ -180,7 +180,9 @@ func (f *c19Fine) interleave(max int) {
 				break
 			}
 			touch(c)
-			if t.relayMode {
+			if t.relayMode && t.c19lRandomCall(c) {
+				// locally handled / relay-originated call on a relay connection (engine_c19local.go)
+			} else if t.relayMode {
 				var dsts []*c19Conn
 				for _, x := range live {
 					if x.outbound && t.state(x).State == 1 {
@@ -425,7 +427,7 @@ func (f *c19Fine) judge() {
 				t.fail("[c19:sweep-closes-recently-used-connection] the sweep that started at clock t0+%v closed connection %d although, when the poller reached the close (idle.sweep.close), the connection had sent or received a call frame %v before (MaxIdleTime %v): a call frame was processed between the sweep's last look at the activity stamps and the close",
 					f.now0.Sub(time.Unix(0, t.t0)), c.id, in.closeIdleFor, time.Duration(t.maxIdle))
 			} else if in.closePend != 0 {
-				t.fail("the sweep closed connection %d although it had %d pending call(s) when the poller reached the close (idle.sweep.close)", c.id, in.closePend)
+				t.fail("the sweep closed connection %d although it had %d pending call(s) when the poller reached the close (idle.sweep.close)%s", c.id, in.closePend, t.c19lDescribe(c))
 			}
 		}
 		if in.closedBySwp {
@@ -433,7 +435,7 @@ func (f *c19Fine) judge() {
 				t.fail("[c19:sweep-closes-recently-used-connection] the sweep that started at clock t0+%v closed connection %d although a call frame was sent or received on it %v before the sweep's clock value (MaxIdleTime %v): the connection carried a call after the first loop collected it",
 					f.now0.Sub(time.Unix(0, t.t0)), c.id, f.now0.Sub(c.oLastCall), time.Duration(t.maxIdle))
 			} else if in.testedPend != 0 {
-				t.fail("the sweep closed connection %d although it had %d pending call(s) when the sweep tested it", c.id, in.testedPend)
+				t.fail("the sweep closed connection %d although it had %d pending call(s) when the sweep tested it%s", c.id, in.testedPend, t.c19lDescribe(c))
 			} else if !in.wasActive {
 				t.fail("the sweep closed connection %d which was not Active", c.id)
 			}
@@ -445,8 +447,8 @@ func (f *c19Fine) judge() {
 					f.now0.Sub(time.Unix(0, t.t0)), c.id, f.now0.Sub(c.oLastCall), time.Duration(t.maxIdle))
 			}
 			if !in.shouldAtTick && in.closedBySwp {
-				t.fail("sweep at clock t0+%v closed connection %d although it should not (pending=%d relayPending=%d idleFor=%v MaxIdleTime=%v) and nothing happened on it during the sweep",
-					f.now0.Sub(time.Unix(0, t.t0)), c.id, c.oPending, c.oRelayPending, f.now0.Sub(c.oLastCall), time.Duration(t.maxIdle))
+				t.fail("sweep at clock t0+%v closed connection %d although it should not (pending=%d relayPending=%d idleFor=%v MaxIdleTime=%v) and nothing happened on it during the sweep%s",
+					f.now0.Sub(time.Unix(0, t.t0)), c.id, c.oPending, c.oRelayPending, f.now0.Sub(c.oLastCall), time.Duration(t.maxIdle), t.c19lDescribe(c))
 			}
 		}
 		if !in.closedBySwp && in.wasActive && c.oActive && t.state(c).State != 1 {
@@ -484,6 +486,7 @@ func c19fSetup(rng *rand.Rand, maxIdle int64, hInterval, hFail int64, relayMode 
 	}
 	if t.relayMode {
 		opts.RelayHost = &c19RelayHost{}
+		opts.RelayLocalHandlers = c19lLocalHandlers // (engine_c19local.go)
 	}
 	t.cfg.apply(opts, t.sink)
 	ch, err := tchannel.NewChannel("verif-c19", opts)
@@ -797,6 +800,15 @@ func engineSweepFine(rng *rand.Rand, n int, tier string, o *Out) {
 	}
 	for i := 0; i < d6; i++ {
 		c19xFineCase(rng, i, tier, o)
+	}
+	// kind 7: non-relayed calls (locally handled, relay-originated) on relay connections over a forced
+	// sweep (engine_c19local.go)
+	d7 := c19lFineCases
+	if tier == "thorough" {
+		d7 = 4 * c19lFineCases
+	}
+	for i := 0; i < d7; i++ {
+		c19lFineCase(rng, i, tier, o)
 	}
 	for i := 0; i < n; i++ {
 		c19fRunCase(rng, i, 0, tier, o)
